@@ -438,11 +438,52 @@ func (rt vTargetRT) RoundTrip(req *http.Request) (*http.Response, error) {
 	h.Set("X-Verif-Served-By", name)
 	h.Set("Content-Type", "text/plain")
 	body := "served-by:" + name + " path:" + req.URL.EscapedPath()
+	if strings.HasPrefix(beh, "stream:") {
+		// a response without Content-Length whose body arrives in two parts, the second one <ns> later: the exchange is
+		// still running (headers and first part already with the client) when a drain begins
+		d, _ := strconv.ParseInt(beh[len("stream:"):], 10, 64)
+		h.Set("X-Verif-Body-Len", strconv.Itoa(len(body)))
+		return &http.Response{
+			StatusCode: status, Status: fmt.Sprintf("%d", status), Proto: "HTTP/1.1", ProtoMajor: 1, ProtoMinor: 1,
+			Header: h, Body: &vStreamBody{ctx: req.Context(), parts: []string{body[:len(body)/2], body[len(body)/2:]}, gap: time.Duration(d)},
+			ContentLength: -1, Request: req,
+		}, nil
+	}
 	return &http.Response{
 		StatusCode: status, Status: fmt.Sprintf("%d", status), Proto: "HTTP/1.1", ProtoMajor: 1, ProtoMinor: 1,
 		Header: h, Body: io.NopCloser(strings.NewReader(body)), ContentLength: int64(len(body)), Request: req,
 	}, nil
 }
+
+// vStreamBody delivers its parts one Read at a time, waiting `gap` before every part but the first; a cancelled
+// request context ends the stream with that error (the upstream connection is gone).
+type vStreamBody struct {
+	ctx   context.Context
+	parts []string
+	gap   time.Duration
+	next  int
+}
+
+func (b *vStreamBody) Read(p []byte) (int, error) {
+	if b.next >= len(b.parts) {
+		return 0, io.EOF
+	}
+	if b.next > 0 {
+		select {
+		case <-time.After(b.gap):
+		case <-b.ctx.Done():
+			return 0, context.Cause(b.ctx)
+		}
+	}
+	n := copy(p, b.parts[b.next])
+	b.parts[b.next] = b.parts[b.next][n:]
+	if b.parts[b.next] == "" {
+		b.next++
+	}
+	return n, nil
+}
+
+func (b *vStreamBody) Close() error { return nil }
 
 // vPipeBody is the writable body of a 101 response (ReverseProxy needs an io.ReadWriteCloser).
 type vPipeBody struct{ near, far net.Conn }
@@ -718,6 +759,9 @@ func (s *vSim) runRequest(id string, c map[string]any) map[string]any {
 		}()
 		handler.ServeHTTP(rw, req)
 	}()
+	if ctx.Err() != nil {
+		res["client_gone"] = true // the harness (cancel op / teardown) had withdrawn the client before the handler returned
+	}
 	cancel()
 	res["t_done"] = s.now()
 	if hw != nil {
@@ -740,6 +784,13 @@ func (s *vSim) runRequest(id string, c map[string]any) map[string]any {
 		hw.mu.Unlock()
 	}
 	res["status"] = w.Code
+	if bl := w.Header().Get("X-Verif-Body-Len"); bl != "" {
+		// a streamed response: did the whole body reach the client?
+		if n, err := strconv.Atoi(bl); err == nil && n != w.Body.Len() {
+			res["truncated"] = true
+		}
+		res["streamed"] = true
+	}
 	res["served_by"] = w.Header().Get("X-Verif-Served-By")
 	res["location"] = w.Header().Get("Location")
 	res["body"] = vHex(w.Body.Bytes())
